@@ -107,6 +107,14 @@ pub fn dispatch(op: &str, a: &[Val]) -> Option<Val> {
                 _ => None,
             }
         })(),
+        "z.opdays" => (|| {
+            let z = dec_dt(a.get(0)?)?; let n = Days::new(a.get(2)?.u64()?);
+            match a.get(1)?.int()? {
+                1 => Some(enc_z(z + n)),
+                -1 => Some(enc_z(z - n)),
+                _ => None,
+            }
+        })(),
         "z.conv" => (|| {
             let z = dec_dt(a.get(0)?)?;
             let u: DateTime<Utc> = DateTime::<Utc>::from(z);
